@@ -476,18 +476,35 @@ def _fields(repo, rep):
         if isinstance(n, ast.Assign) and src(n.targets[0]) == "attr_format":
             fmt = n.value
     parts = []
+    escaped = set()
     if fmt is not None:
-        def flat(e):
+        def flat(e, esc=False):
             if isinstance(e, ast.BinOp) and isinstance(e.op, ast.Add):
-                flat(e.left)
-                flat(e.right)
+                flat(e.left, esc)
+                flat(e.right, esc)
+            elif isinstance(e, ast.Call) and isinstance(
+                    e.func, ast.Attribute) and e.func.attr == "replace" \
+                    and [getattr(a, "value", None) for a in e.args] == \
+                    ["%", "%%"]:
+                flat(e.func.value, True)
             else:
                 parts.append(src(e))
+                if esc:
+                    escaped.add(src(e))
         flat(fmt)
     rep.check(parts == ["node.space", "node.name", "node.eq", "node.quote",
                         "'%s'", "node.quote"], "R03.3", va.qualname,
               "an attribute is written as space name eq quote VALUE quote",
               construct="attr-format", where=L.where(va), detail=str(parts))
+    # the pieces in front of the value are template text (the space may hold
+    # characters of the tag that match no attribute): used as a %-format,
+    # their '%' has to be doubled or the text changes ('%%' -> '%') or the
+    # compilation fails ('%d')
+    rep.check({"node.space", "node.name", "node.eq"} <= escaped, "R03.3",
+              va.qualname, "the literal text in front of an attribute value "
+              "is %-escaped before it is used as a format",
+              construct="attr-format-escaped", where=L.where(va),
+              detail="escaped: %s" % sorted(escaped))
     static_emit = False
     for it, conds in A.flatten(r.emission):
         if isinstance(it, A.Internal) and it.kind == "EmitText" and \
